@@ -50,7 +50,52 @@ def scenarios(ctx, n, deep=False):
     return [D.gen_scenario(ctx.rng, bias) for _ in range(n)]
 
 
+def real_lines_part(ctx, only=None):
+    """the real LinesPass (with the stand-in topformflat) under the real run_pass: its new() reformats the user's file in
+    place and keeps that only if the sanity check passes.  Predicates that depend on the layout (both reformatted
+    alternatives are rejected) and predicates that do not; afterwards the file must be the original or interesting."""
+    import random
+    import re
+    import shutil
+    import tempfile
+    from pathlib import Path
+    import harness_drv as H
+    import shim
+    from vlib import VERIF
+    from cvise.passes.lines import LinesPass
+    tool = str(VERIF / 'tools' / 'standins' / 'topformflat')
+    preds = {'needs-indent': lambda fs: re.search(r'^  keep1;', fs['a.c'], re.M) is not None,
+             'needs-one-line': lambda fs: 'int f() { keep1; x; }' in fs['a.c'],
+             'any-layout': lambda fs: 'keep1' in fs['a.c']}
+    texts = ['  keep1;\n  x;\n  y;\n', 'int f() { keep1; x; }\nint g() { y; }\n', 'a;\n  keep1;\nb; c;\n']
+    cases = [(arg, ti, pn) for arg in ('0', '1', '2', '10') for ti in range(len(texts)) for pn in preds]
+    for arg, ti, pn in (cases if only is None else [only]):
+        text, pred = texts[ti], preds[pn]
+        if not pred({'a.c': text}):
+            continue
+        d = Path(tempfile.mkdtemp(prefix='c01l-', dir=ctx.scratch))
+        import logging
+        logging.disable(logging.CRITICAL)
+        try:
+            ctl = shim.Control(sched=None, faults={}, rng=random.Random(ctx.rng.getrandbits(32)), p_done=ctx.rng.choice([0.0, 1.0]), wait_policy='first')
+            obs = H.run_real_textpass(LinesPass(arg, {'topformflat': tool}), {'a.c': text}, pred, ctx.rng.choice([1, 2, 3]), ctl, d)
+        finally:
+            logging.disable(logging.NOTSET)
+            shutil.rmtree(d, ignore_errors=True)
+        ctx.count()
+        final = obs['final']['a.c']
+        if final != text and not pred({'a.c': final}):
+            ctx.report('final-set-never-tested-interesting:real-lines-pass', f'LinesPass::{arg} on {text!r} with predicate {pn}: the file is left as {final!r}, which the test rejects (outcome {obs["outcome"]})',
+                       {'kind': 'real-lines', 'case': [arg, ti, pn]})
+        if obs['accepted'] or final != text:
+            ctx.nontrivial(('real-lines', arg, ti, pn))
+
+
 def run(ctx):
+    if ctx.replay and json.load(open(ctx.replay)).get('kind') == 'real-lines':
+        real_lines_part(ctx, tuple(json.load(open(ctx.replay))['case']))
+        print('replayed ->', 'fails' if ctx.violations else 'holds')
+        return 1 if ctx.violations else 0
     if ctx.replay:
         D.replay_drv(ctx, json.load(open(ctx.replay)), [signature])
         return 1 if ctx.violations else 0
@@ -58,6 +103,7 @@ def run(ctx):
     diffs = []
     n = 400 if ctx.tier == 'quick' else 6000
     rows = D.sweep(ctx, [F1] + [stale_other_file(ctx.rng) for _ in range(4)] + scenarios(ctx, n), [signature], diffs, nontriv)
+    real_lines_part(ctx)
     for i in (0, 5, len(rows) // 2):
         ctx.sample({'scenario_key': D.scen_key(rows[i][0]), 'files': rows[i][0]['files'], 'cfg': rows[i][0]['cfg'], 'observed': rows[i][2]})
 
